@@ -52,7 +52,7 @@ func (c TemplCase) yaml() string {
 	if len(c.Vars) > 0 {
 		b.WriteString("vars:\n")
 		for _, k := range sortedKeys(c.Vars) {
-			fmt.Fprintf(&b, "  %s: %s\n", k, yq(c.Vars[k]))
+			fmt.Fprintf(&b, "  %s: %s\n", k, varYAML(c.Vars[k]))
 		}
 	}
 	b.WriteString("processes:\n")
@@ -79,7 +79,7 @@ func (c TemplCase) yaml() string {
 		if len(p.Vars) > 0 {
 			b.WriteString("    vars:\n")
 			for _, k := range sortedKeys(p.Vars) {
-				fmt.Fprintf(&b, "      %s: %s\n", k, yq(p.Vars[k]))
+				fmt.Fprintf(&b, "      %s: %s\n", k, varYAML(p.Vars[k]))
 			}
 		}
 		for _, pr := range []struct {
@@ -124,6 +124,29 @@ func sortedKeys(m map[string]string) []string {
 	return out
 }
 
+// Variables are kept as strings in the case; "int:N" and "bool:B" stand for the YAML scalars N and
+// B (unquoted in the file, int / bool in the reference), anything else is a quoted string.
+func varYAML(v string) string {
+	if strings.HasPrefix(v, "int:") {
+		return v[4:]
+	}
+	if strings.HasPrefix(v, "bool:") {
+		return v[5:]
+	}
+	return yq(v)
+}
+
+func varValue(v string) any {
+	if strings.HasPrefix(v, "int:") {
+		n, _ := strconv.Atoi(v[4:])
+		return n
+	}
+	if strings.HasPrefix(v, "bool:") {
+		return v[5:] == "true"
+	}
+	return v
+}
+
 // refRender: text/template over global vars, overridden by local vars, plus the replica number.
 func refRender(s string, global, local map[string]string, replica int) (string, error) {
 	if s == "" {
@@ -131,10 +154,10 @@ func refRender(s string, global, local map[string]string, replica int) (string, 
 	}
 	m := map[string]any{}
 	for k, v := range global {
-		m[k] = v
+		m[k] = varValue(v)
 	}
 	for k, v := range local {
-		m[k] = v
+		m[k] = varValue(v)
 	}
 	m["PC_REPLICA_NUM"] = replica
 	tpl, err := template.New("").Parse(s)
@@ -324,7 +347,9 @@ func firstDiff(a, b string) string {
 // L2 and L3 are never global: a process that does not define them renders "<no value>" / the
 // empty branch whatever its neighbours define.
 var tmplPieces = []string{"plain", "r{{.PC_REPLICA_NUM}}", "{{.G1}}", "{{.L1}}-{{.PC_REPLICA_NUM}}", "{{.G2}}/{{.L1}}", "x {{.PC_REPLICA_NUM}} y {{.PC_REPLICA_NUM}}", "/d/{{.G1}}/{{.PC_REPLICA_NUM}}",
-	"{{.L2}}", "w{{if .L3}} --debug{{end}}", "{{.L2}}-{{.G1}}-{{.PC_REPLICA_NUM}}"}
+	"{{.L2}}", "w{{if .L3}} --debug{{end}}", "{{.L2}}-{{.G1}}-{{.PC_REPLICA_NUM}}",
+	// typed variables: an integer keeps its decimal form and compares with integer literals, a boolean branches
+	"--max {{.N1}}", "{{if eq .N2 2}}two{{else}}other{{end}}-{{.N2}}", "{{if .B1}}on{{else}}off{{end}}"}
 
 func genTempl(t *rapid.T) TemplCase {
 	c := TemplCase{Vars: map[string]string{}, Loads: 6}
@@ -333,9 +358,31 @@ func genTempl(t *rapid.T) TemplCase {
 			c.Vars[g[0]] = g[1]
 		}
 	}
+	c.Vars["N2"] = "int:5" // always defined: `eq` on a missing key is a template error, not a rendering
+	if pbt.Pct(t, 50) {
+		c.Vars["N1"] = "int:123456789"
+	}
 	n := pbt.Range(t, 1, 5)
 	for i := 0; i < n; i++ {
 		p := TProc{Name: fmt.Sprintf("svc%d", i), Replicas: pbt.Pick(t, []int{0, 1, 2, 2, 3, 4, 9, 10, 11, 99, 100}), Command: "run " + pbt.Pick(t, tmplPieces)}
+		if pbt.Pct(t, 35) {
+			if p.Vars == nil {
+				p.Vars = map[string]string{}
+			}
+			p.Vars["N1"] = pbt.Pick(t, []string{"int:10485760", "int:7", "int:1000000", "int:2147483648"})
+		}
+		if pbt.Pct(t, 35) {
+			if p.Vars == nil {
+				p.Vars = map[string]string{}
+			}
+			p.Vars["N2"] = pbt.Pick(t, []string{"int:2", "int:3"})
+		}
+		if pbt.Pct(t, 25) {
+			if p.Vars == nil {
+				p.Vars = map[string]string{}
+			}
+			p.Vars["B1"] = pbt.Pick(t, []string{"bool:true", "bool:false"})
+		}
 		for _, l := range []string{"L1", "L2", "L3"} {
 			if pbt.Pct(t, 40) {
 				if p.Vars == nil {
